@@ -158,6 +158,13 @@ async def run_pump(loop: S.VLoop, c, mw_factory=None):
         return co()
 
     class Up:
+        # the public knobs of the real FileUploadHandler, so that code probing the handler object finds them
+        max_size = 8
+        upload_dir = "/nonexistent"
+        allowed_types = None
+        auth_tokens = None
+        enable_delete = True
+
         async def handle_upload(self, req):
             log["u"] += 1
             log["order"].append("u")
